@@ -248,6 +248,24 @@ func scripted(ctx *common.Ctx, em *emitter) error {
 	if e := zombieScenario(w); e != nil {
 		return e
 	}
+	if ctx.Tier == "thorough" {
+		// a batch on both sides of db.ChunkLimit (1000): created once, delivered twice
+		one := func(u *upd, tag string) error { _, e := w.withDup(u, tag); return e }
+		if e := one(&upd{Kind: "MailboxCreated", MboxRID: "big", Name: "Big"}, "fresh"); e != nil {
+			return e
+		}
+		u := &upd{Kind: "MessagesCreated"}
+		for i := 0; i < 1001; i++ {
+			mbs := []string{"big"}
+			if i%400 == 0 {
+				mbs = append(mbs, "z2")
+			}
+			u.Items = append(u.Items, mcItem{RID: fmt.Sprintf("big%d", i), Marker: fmt.Sprintf("mbig-%d", i), Mboxes: mbs})
+		}
+		if e := one(u, "fresh"); e != nil {
+			return e
+		}
+	}
 	return err
 }
 
